@@ -189,6 +189,21 @@ def run_case(ctx, case):
         g = ux.grid_from_mesh(m, extra=extra, layout=case.get("layout", "C"))
         sig = {"supplied": bool(extra), "isolated": ft["isolated"], "layout": case.get("layout", "C")}
     check_grid(ctx, g, m.faces, m.n_node, case["order"], sig)
+    # grids DERIVED from this one once all its incidence tables exist (face and node selections): judged against the faces
+    # the derived grid itself reports
+    if m.n_face >= 4:
+        rng = np.random.default_rng([m.n_face, m.n_node, case["order"]])
+        picks = {"n_face:every_other": ("n_face", np.arange(0, m.n_face, 2)), "n_face:random_half": ("n_face", np.sort(rng.choice(m.n_face, size=max(2, m.n_face // 2), replace=False))),
+                 "n_face:permutation": ("n_face", rng.permutation(m.n_face)), "n_node:random_third": ("n_node", np.sort(rng.choice(m.n_node, size=max(1, m.n_node // 3), replace=False)))}
+        for how, (dim, idx) in picks.items():
+            try:
+                sub = g.isel(**{dim: np.asarray(idx, dtype=int)})
+                sfaces = ux.rows(sub.face_node_connectivity.values)
+            except Exception as e:
+                ctx.check("no_exception", False, {"stage": "derived_" + how, "exc": core.exc_sig(e)}, {"exc": repr(e), "mesh": case["mesh"]})
+                continue
+            check_grid(ctx, sub, sfaces, int(sub.n_node), (case["order"] + 2) % len(ORDERS), {"supplied": sig["supplied"], "derived": how})
+            ctx.observe("derived_grid_" + how)
     if source == "mpas" and ref.is_manifold(m.faces):
         # the same in-memory dataset opened a second time (a script that opens the primal and later the same mesh again):
         # the incidence tables of the second grid are judged exactly like the first
